@@ -102,10 +102,14 @@ def run_batch(chk, batch, judge_now):
     """batch: [(enum, variants, rule, tag, content, flavour, exp_wires|None, desc)] -> events"""
     srcs = [source(b[0], b[1], b[2], b[3], b[4], b[5]) for b in batch]
     results = observe.generate(srcs)
+    # the same programs once more for Go with the file-only option uppercase_acronyms (it re-spells Go identifiers such as
+    # UserID; the wire strings and tag / content keys must not change)
+    acr = observe.generate(srcs, langs=["go"], cfgs={"go": {"uppercase_acronyms": ["ID", "URL", "API"]}})
     events, meta = [], []
-    for b, per in zip(batch, results):
+    for b, per, per_acr in zip(batch, results, acr):
         enum, variants, rule, tag, content, flavour, exp, desc = b
-        for lang in common.LANGS:
+        per = dict(per, **{"go+acronyms": per_acr["go"]})
+        for lang in common.LANGS + ["go+acronyms"]:
             r = per[lang]
             if r["status"] in ("panic", "abort"):
                 continue
@@ -117,11 +121,11 @@ def run_batch(chk, batch, judge_now):
                 if all(e["msg"].startswith("generate:") for e in r["errors"]):
                     continue          # the backend refuses (e.g. generics in Go)
                 raise ToolError(f"case rejected: {r['errors']}\n{srcs[batch.index(b)]}")
-            o = observe_enum(lang, r["obs"])
+            o = observe_enum(lang.split("+")[0], r["obs"])
             if judge_now:
                 judge(chk, lang, enum, rule, variants, tag, content, o, exp, desc)
             if o is not None:
-                events.append({"lang": lang, "enum": enum, "rule": rule, "tag": tag, "content": content,
+                events.append({"lang": lang.split("+")[0], "enum": enum, "rule": rule, "tag": tag, "content": content,
                                "variants": [{"ident": list(v[0]), "rename": list(v[1] or "")} for v in variants],
                                "wires": [list(w) for w in o["wires"]], "tag_obs": o["tag_obs"], "content_obs": o["content_obs"],
                                "has_payload": any(v[2] != "unit" for v in variants)})
